@@ -102,6 +102,9 @@ func (w *World) Run() {
 			if len(D) > 0 {
 				evs = append(evs, event{kind: "skip", cost: 1, lab: "s"})
 			}
+			if w.Cfg.Restarts && w.Restarts < 2 {
+				evs = append(evs, event{kind: "restart", cost: 1, lab: "r"})
+			}
 			if w.Cfg.ByzMenu {
 				for _, b := range w.byzMenu(i) {
 					b := b
@@ -143,6 +146,9 @@ func (w *World) Run() {
 			idleTurns = 0
 		case "byz":
 			w.applyByz(i, e.bz)
+			idleTurns = 0
+		case "restart":
+			w.Restart(i)
 			idleTurns = 0
 		case "skip":
 			idleTurns++
@@ -190,7 +196,7 @@ func (w *World) outcomeString(why string) string {
 		if w.Committed(i) < w.Cfg.TargetHeight {
 			s += fmt.Sprintf("r%d", rs.Round)
 		}
-		for _, rec := range n.App.Saved {
+		for _, rec := range n.SavedRecords() {
 			origin := "?"
 			if bi := w.Blocks[fmt.Sprintf("%x", rec.BlockID.Hash)]; bi != nil {
 				origin = bi.Origin
